@@ -125,6 +125,13 @@ def _e(value: int | float | str) -> float:
     return float(value)
 
 
+def _n(value):
+    # a HASH("...") constant counts as its number, everything else as itself
+    if isinstance(value, str) and value.startswith('HASH("'):
+        return _e(value)
+    return value
+
+
 def get_unop_instruction(op: str):
     return {
         "-": ("sub", lambda x: -_e(x)),
@@ -148,8 +155,8 @@ def get_binop_instruction(op: str):
         "&": ("and", lambda x, y: int(_e(x)) & int(_e(y))),
         ">>": ("srl", lambda x, y: int(_e(x)) >> int(_e(y))),
         "<<": ("sll", lambda x, y: int(_e(x)) << int(_e(y))),
-        "==": (comp("=="), lambda x, y: x == y),
-        "!=": (comp("!="), lambda x, y: x != y),
+        "==": (comp("=="), lambda x, y: _n(x) == _n(y)),
+        "!=": (comp("!="), lambda x, y: _n(x) != _n(y)),
         "<": (comp("<"), lambda x, y: _e(x) < _e(y)),
         ">": (comp(">"), lambda x, y: _e(x) > _e(y)),
         "<=": (comp("<="), lambda x, y: _e(x) <= _e(y)),
